@@ -26,7 +26,14 @@ theorem op_frame (s : St) (op : Op) :
   have h := run_step (n := s.size) (Nat.le_refl _) op
   exact ⟨h.size, fun a ha => ⟨h.cls a ha, fun f hf => h.get a f ha hf⟩, h.log⟩
 
-example : (St.mk #[Obj.ofList .dist [(.name, .num 0), (.slot 0, .fn 1 [3] [])]] []).size = 1 := rfl
+/-- a conditional distribution `x ~ F(f(v3), 2)` -/
+def exDist : St := ⟨#[Obj.ofList .dist [(.name, .num 0), (.slot 0, .fn 1 [3] []), (.slot 1, .num 2)]], []⟩
+
+-- conditioning it on `v3 = 5` allocates object 1, writes only to object 1, and leaves object 0 as it was
+example : (exDist.run (.cond 0 [(3, 5)])).2 = .obj 1 := by decide
+example : (exDist.run (.cond 0 [(3, 5)])).1.log = [(1, .slot 0), (1, .orig)] := by decide
+example : (exDist.run (.cond 0 [(3, 5)])).1.get 1 (.slot 0) = .num (applyFn 1 [(3, 5)])
+    ∧ (exDist.run (.cond 0 [(3, 5)])).1.get 0 (.slot 0) = .fn 1 [3] [] := by decide
 
 /-- **op_frame with an earlier watermark** — what is needed for sequences: objects older than `n`
     are protected from an operation started later (`n ≤ s.size`). -/
@@ -88,6 +95,16 @@ theorem constants_on_fresh (s : St) (a : Nat) (kw : Kw) (w : Nat × Fld)
   · exact absurd h hnew
   · exact h
   · rw [hf] at h; exact absurd h (by decide)
+
+/-- a joint of a distribution and an evaluated density (value 7) -/
+def exJoint : St :=
+  ⟨#[Obj.ofList .dist [(.name, .num 0), (.slot 0, .num 1)], Obj.ofList .eval [(.name, .num 1), (.value, .num 7), (.const, .num 0)],
+     Obj.ofList .joint [(.dens, .refs [0, 1])]], []⟩
+
+-- `joint()` reduces to the distribution's *copy* (object 4) and adds the constant 7 there, not on object 0
+example : (exJoint.condJoint 2 []).2 = .obj 4 ∧ (exJoint.condJoint 2 []).1.get 4 .const = .num 7
+    ∧ (exJoint.condJoint 2 []).1.get 0 .const = .none := by decide
+example : ((exJoint.condJoint 2 []).1.log.filter (fun w => w.2 = .const)) = [(4, .const)] := by decide
 
 /-- the object returned by conditioning a joint is never one that existed before -/
 theorem condJoint_result_fresh (s : St) (a : Nat) (kw : Kw) (r : Nat) (h : (s.condJoint a kw).2 = .obj r) :
